@@ -122,7 +122,7 @@ def plan(tier, rng):
         thr = [("cf_threadpool", w, 2, 6) for w in (1, 2, 4)] + [(None, None, 2, 3), ("serial", 1, 2, 2)]
         seeds = [42 + rng.randrange(1000)]
     else:
-        proc = [(be, w, 2, 3) for be in ("mp_pool", "cf_procpool") for w in (1, 2, 4, 8)]
+        proc = [(be, w, 2, 2) for be in ("mp_pool", "cf_procpool") for w in (1, 2, 4, 8)]
         thr = [("cf_threadpool", w, 3, 12) for w in (1, 2, 3, 4, 8)] + [(None, None, 3, 3), ("serial", 1, 3, 3)]
         seeds = [42 + rng.randrange(1000), 7, 123456]
     return proc, thr, seeds
